@@ -13,16 +13,21 @@ var (
 	repoDir  = "/repo"
 )
 
+var concProp = "" // property being checked (C13 switches env functions to the concurrent mode)
+
 func encodeFunc(P *Prog, key string) *Enc {
 	fn := P.Funcs[key]
+	conc := concProp == "C13" && strings.HasPrefix(key, "env.")
 	// pass 1: discover state components
 	e1 := newEnc(P, fn)
+	e1.concMode = conc
 	e1.run(nil)
 	known := compSet{}
 	for k, v := range e1.compSort {
 		known[k] = v
 	}
 	e := newEnc(P, fn)
+	e.concMode = conc
 	e.run(known)
 	return e
 }
@@ -96,6 +101,7 @@ func cmdDebug(args []string) {
 	prop := fs.String("property", "", "only obligations of this property")
 	dumpDir := fs.String("dump", "", "write SMT of failing obligations to this directory")
 	fs.Parse(args)
+	concProp = *prop
 	P := mustLoad()
 	var keys []string
 	for _, k := range P.FuncKeys {
